@@ -221,7 +221,7 @@ class mapper(object):
             if isinstance(p, bytes):
                 p = cst(Bits(p[::endian], bitorder=1).int(), plen * 8)
             elif isinstance(p, exp):
-                if p._is_def == 0:
+                if p._is_def == 0 and not p._is_top:
                     # p is "bottom":
                     p = mem(a, p.size, disp=cur, endian=endian)
                 elif p.etype==et_ext and p._subrefs.get("mmio_r",None):
